@@ -160,6 +160,10 @@ CONTROLS = [
     ("C17", "keep-C17p-3", "@patch", "/verif/seeded/keep-C17p-3/patch.diff", None),
     ("C17", "keep-C17p-4", "@patch", "/verif/seeded/keep-C17p-4/patch.diff", None),
     # round 16
+    ("C05", "keep-C05u1", "@patch", "/verif/seeded/keep-C05u1/patch.diff", None),
+    ("C05", "keep-C05u2", "@patch", "/verif/seeded/keep-C05u2/patch.diff", None),
+    ("C16", "keep-C16u1", "@patch", "/verif/seeded/keep-C16u1/patch.diff", None),
+    ("C16", "keep-C16u2", "@patch", "/verif/seeded/keep-C16u2/patch.diff", None),
     ("C17", "keep-C17u1", "@patch", "/verif/seeded/keep-C17u1/patch.diff", None),
     ("C17", "keep-C17u2", "@patch", "/verif/seeded/keep-C17u2/patch.diff", None),
     ("C18", "keep-C18u1", "@patch", "/verif/seeded/keep-C18u1/patch.diff", None),
